@@ -11,6 +11,7 @@ CONSTANTS
   MaxDepth = 3
   CellMask = TRUE
   CopyClear = TRUE
+  DataCopyDepth = 1
   Valueless = TRUE
   Deviations = {}
 VIEW vw
